@@ -2,7 +2,7 @@
 From Coq Require Import List NArith String.
 From TG.Gen Require Import GenTokens GenGrammar GenGrammarCert.
 From TG.Model Require Import Chars Lexer Prep Tree ParserPrims GInterp.
-From TG.Proofs Require Import LexBasics ParserTile GTile LookProg BldAn ParserMsgs ParserTop.
+From TG.Proofs Require Import LexBasics ParserTile GTile LookProg BldAn ParserMsgs CostAn CostSound ParserWork ParserTop.
 Import ListNotations.
 
 (** THE PROPERTY (termination + panic-freedom), for the grammar regenerated from the current sources: on EVERY text
@@ -43,6 +43,39 @@ Proof. exact parse_terminates. Qed.
 Check C02_terminates_checked : forall (p : prog) (ce : cert) (entry : nat), chk_all p ce entry = true ->
   forall txt : text, exists fuel, parse_with fuel p entry txt <> ParseOOF.
 Print Assumptions C02_terminates_checked.
+
+(** Linear work (A-cost): the work counters of a completed parse -- calls of ParserBase::lex plus calls of
+    ParserBase::start_node -- are at most [grammar_K] times (number of raw lexer tokens + 1), for EVERY text.
+    [grammar_K] is computed from the regenerated grammar (null-work bound per function, loop overheads, ranks).
+    Proof: potential W + B * msr; a consumed token pays B units and leaves slack for the enclosing loop iteration
+    and for the chain of wrapper functions entered before it (strictly decreasing ranks); CostSound.cost_sound. *)
+Theorem C02_linear : forall fuel txt t errs st,
+  parse_with fuel grammar_prog grammar_entry txt = ParseOk t errs st ->
+  N.to_nat (nlex st) + N.to_nat (nstart st) <= grammar_K * (List.length (raw_lex txt) + 1).
+Proof. exact grammar_linear. Qed.
+Check C02_linear : forall fuel txt t errs st,
+  parse_with fuel grammar_prog grammar_entry txt = ParseOk t errs st ->
+  N.to_nat (nlex st) + N.to_nat (nstart st) <= grammar_K * (List.length (raw_lex txt) + 1).
+Print Assumptions C02_linear.
+Eval vm_compute in (N.of_nat grammar_K).
+
+(** the same for EVERY program, certificate and constant table accepted by the reflective checks *)
+Theorem C02_linear_checked : forall (p : prog) (ce : cert) (entry : nat) (k : cconsts),
+  chk_all p ce entry = true -> cchk p ce k = true ->
+  forall fuel txt t errs st, parse_with fuel p entry txt = ParseOk t errs st ->
+  N.to_nat (nlex st) + N.to_nat (nstart st) <= lin_K k entry * (List.length (raw_lex txt) + 1).
+Proof. exact parse_linear. Qed.
+Print Assumptions C02_linear_checked.
+
+(** Work accounting (every program): the counters are the size of the tree -- nlex = 1 + leaves,
+    nstart <= nodes (+ nodes left open) -- so the bound above is a bound on the size of the syntax tree, which is
+    what the check measures on the real parser (rowan: one node per start_node(_at), one leaf per token()). *)
+Theorem C02_work_is_tree_size : forall (p : prog) (entry fuel : nat) txt t errs st,
+  parse_with fuel p entry txt = ParseOk t errs st ->
+  N.to_nat (nlex st) = S (List.length (leaves t)) /\
+  N.to_nat (nstart st) <= nnodes t + List.length (parents (bld st)).
+Proof. exact work_accounting. Qed.
+Print Assumptions C02_work_is_tree_size.
 
 (** Every syntax error reported has a non-empty message and a range inside the text on character boundaries. *)
 Definition C02_error_wf (txt : text) (e : N * N * parse_msg) : Prop :=
